@@ -28,7 +28,7 @@ ASSUMPTIONS = [
     'raffle: a VouchingParameters constant whose checking half equals CheckingParameters vouches values that check',
 ]
 
-FLOORS = {'R19.1': 3, 'R19.2': 3, 'R19.3': 3, 'R19.4': 3, 'R19.5': 1, 'R19.6': 1, 'R19.7': 3, 'R19.8': 2}
+FLOORS = {'R19.1': 3, 'R19.2': 3, 'R19.3': 3, 'R19.4': 3, 'R19.5': 3, 'R19.6': 1, 'R19.7': 3, 'R19.8': 2}
 
 
 class NV:
@@ -59,9 +59,8 @@ class NV:
         return None
 
 
-def r19_1(cx):
-    """device gate: the cell updates are cut off by {contains_key(TRUSTED_PATHS, dev), extra_device == Some(dev)}"""
-    nv = NV(cx)
+def _gate_edges(nv):
+    """[(kind, edge)] of the trusted-device tests of update_base_time, and the positions of the metadata calls they test"""
     fn = nv.ubt
     gate_edges = []
     md_positions = set()
@@ -90,6 +89,14 @@ def r19_1(cx):
                         eq_edge = (b, t_t) if rel[0] == 'Eq' else (b, f_t)
                         gate_edges.append(('extra-device', eq_edge))
                         md_positions.add(md.pos)
+    return gate_edges, md_positions
+
+
+def r19_1(cx):
+    """device gate: the cell updates are cut off by {contains_key(TRUSTED_PATHS, dev), extra_device == Some(dev)}"""
+    nv = NV(cx)
+    fn = nv.ubt
+    gate_edges, md_positions = _gate_edges(nv)
     kinds = {k for k, _ in gate_edges}
     cx.check('trusted-table' in kinds, 'gate:trusted-table', fn, None, 'contains_key(TRUSTED_PATHS, &metadata(file).dev()) guards the update',
              fail_detail='no lookup of the file\'s device in TRUSTED_PATHS found')
@@ -277,6 +284,16 @@ def r19_5(cx):
                 if s.kind == 'agg' and s.info.get('variant') == 'Some':
                     somes.append(s.args[0].strip())
     ok = bool(somes) and all(any(show(s) == show(cs.arg(1).strip()) for cs in nv.sinks) for s in somes)
+    # ... and is reported only for a trusted device: no Ok((_, Some(..))) is built on a path around the gate
+    edges = [e for _, e in _gate_edges(nv)[0]]
+    some_sites = []
+    for pos, st in fn.statements():
+        if st['k'] == 'assign' and st['rv']['k'] == 'agg' and st['rv']['variant'] == 'Some' and 'Voucher' in fn.locals[st['pl']['l']]:
+            some_sites.append(pos)
+    leak = [p_ for p_ in some_sites if not fn.is_cut(edges, [p_.bb])]
+    cx.check(bool(some_sites) and not leak, 'some-only-when-trusted', fn, fn.loc(leak[0].bb, leak[0].idx) if leak else None,
+             'a (base time, voucher) pair is built only behind a trusted-device edge (%d sites)' % len(some_sites),
+             fail_detail='a vouched pair can be reported for a file on an untrusted device (a path around the trusted-device test builds Some(..))')
     cx.check(ok, 'some-is-the-update', fn, None, 'Ok((stat, Some(u))) reports exactly the pair handed to the cell',
              fail_detail='a reported pair is not the one handed to the cell')
 
